@@ -135,3 +135,44 @@ class Cxx:
         if fn is None:
             return None
         return cxxeval.ParseEval(self.mod, c, fn, "parse", self.mins, getters=self.getters(c) if c.name.endswith("View") else {}).run()
+
+
+    def statics(self):
+        """struct class -> constant GetSize() (octets) when it is one"""
+        if getattr(self, "_statics", None) is not None:
+            return self._statics
+        views, builders, structs = self.kinds()
+        st = {}
+        for _ in range(3):
+            changed = False
+            for n, c in structs.items():
+                fn = c.method("GetSize")
+                if fn is None:
+                    continue
+                ev = cxxeval.SerEval(self.mod, c, fn, "size", st).run()
+                v = ev.size_value
+                if ev.was_skipped or not isinstance(v, cxxeval.E):
+                    continue
+                p = ev.env.poly(v)
+                val = int(p.get((), 0)) if list(p.keys()) in ([()], []) else None
+                if val is not None and st.get(n) != val:
+                    st[n] = val
+                    changed = True
+            if not changed:
+                break
+        self._statics = st
+        return st
+
+    def eval_serialize(self, c, ref_chunks=None):
+        fn = c.method("Serialize")
+        if fn is None:
+            return None
+        ev = cxxeval.SerEval(self.mod, c, fn, "serialize", self.statics())
+        ev.ref_chunks = ref_chunks
+        return ev.run()
+
+    def eval_getsize(self, c):
+        fn = c.method("GetSize")
+        if fn is None:
+            return None
+        return cxxeval.SerEval(self.mod, c, fn, "size", self.statics()).run()
